@@ -7,6 +7,11 @@
    [Fo : oracles] (bit pattern -> bit pattern): every theorem below holds for
    EVERY libm unless it names a hypothesis about it.
 
+   The model follows /repo at the four fix commits d752faf (from_f64),
+   06c1b45 (6n mod 12), d3c0150 (x^0), bd3b9a9 (cos keeps the flag); the
+   functions before them are kept as *_old with the refutation witnesses that
+   motivated the repairs (documentation, not obligations on the code).
+
    Status of the clauses of the property statement:
      exact at the documented points, unmarked ....... theorems (1)-(6), (12)-(13)
      everything else marked approximate .............. theorems (7)-(8)
@@ -26,13 +31,11 @@ From Coq Require Import QArith Qabs Qreals Reals.
 Open Scope R_scope.
 
 (* ---------------------------------------------------------------- (1) *)
-(* sin at every multiple z*pi/6 whose sine is rational (|z| mod 12 not in
-   {2,4,8,10}), for every |z| below the code's usize cut-off 2^64, in any
-   representation n of z/6, for any libm: answered from the table, marked
-   exact, equal to the real sine. *)
+(* sin at EVERY multiple z*pi/6 whose sine is rational (|z| mod 12 not in
+   {2,4,8,10}) -- no bound on z --, in any representation n of z/6, for any
+   libm: answered from the table, marked exact, equal to the real sine. *)
 Theorem C15_sin_special : forall (Fo : oracles) (z : Z) (n : Q),
-  (Z.abs z < 2 ^ 64)%Z -> (n == z # 6)%Q ->
-  good_residue (Z.abs_N z) = true ->
+  (n == z # 6)%Q -> good_residue (Z.abs_N z) = true ->
   exists v, real_sin Fo (RPi n) = Ok (mkEx (RSimple v) true)
             /\ Q2R v = sin (IZR z * PI / 6).
 Proof. exact sin_special_lemma. Qed.
@@ -40,7 +43,7 @@ Print Assumptions C15_sin_special.
 
 (* ---------------------------------------------------------------- (2) *)
 Theorem C15_cos_special : forall (Fo : oracles) (z : Z),
-  (Z.abs (z + 3) < 2 ^ 64)%Z -> good_residue (Z.abs_N (z + 3)) = true ->
+  good_residue (Z.abs_N (z + 3)) = true ->
   exists v, real_cos Fo (RPi (z # 6)) = Ok (mkEx (RSimple v) true)
             /\ Q2R v = cos (IZR z * PI / 6).
 Proof. exact cos_special_lemma. Qed.
@@ -52,15 +55,25 @@ Proof. exact good_residue_mul3. Qed.
 Print Assumptions C15_half_pi_multiples_good.
 
 (* ---------------------------------------------------------------- (3) *)
-(* Without the cut-off (1) is false: REFUTED.  sin(2^70 pi) = 0 is a
-   documented exact point; for every libm the result is marked approximate. *)
-Theorem C15_sin_special_unbounded_refuted :
-  exists (z : Z) (n : Q), (n == z # 6)%Q /\ good_residue (Z.abs_N z) = true /\
-    forall Fo, exists v, real_sin Fo (RPi n) = Ok (mkEx v false).
-Proof. exact sin_special_unbounded_refuted_lemma. Qed.
-Print Assumptions C15_sin_special_unbounded_refuted.
+(* The code before fix commit 06c1b45 (try_as_usize of 6n itself): the same
+   statement held only below the usize cut-off ... *)
+Theorem C15_sin_special_old : forall (Fo : oracles) (z : Z) (n : Q),
+  (Z.abs z < 2 ^ 64)%Z -> (n == z # 6)%Q -> good_residue (Z.abs_N z) = true ->
+  exists v, real_sin_old Fo (RPi n) = Ok (mkEx (RSimple v) true)
+            /\ Q2R v = sin (IZR z * PI / 6).
+Proof. exact sin_old_special_lemma. Qed.
+Print Assumptions C15_sin_special_old.
 
-(* the classifier of the known class big_pi_multiple at the cut-off:
+(* ... and was REFUTED without it: sin(2^70 pi) = 0 is a documented exact
+   point; for every libm the old result was marked approximate. *)
+Theorem C15_sin_special_old_unbounded_refuted :
+  exists (z : Z) (n : Q), (n == z # 6)%Q /\ good_residue (Z.abs_N z) = true /\
+    forall Fo, exists r, real_sin_old Fo (RPi n) = r /\
+      forall v, r = Ok v -> exb v = false.
+Proof. exact sin_old_special_unbounded_refuted_lemma. Qed.
+Print Assumptions C15_sin_special_old_unbounded_refuted.
+
+(* the classifier of the (fixed) class big_pi_multiple at the old cut-off:
    6 * 3074457345618258603 = 2^64 + 2 *)
 Theorem C15_big_pi_classifier_examples :
   known_big_pi_multiple (2 ^ 70 # 1)%Q = true /\
@@ -90,18 +103,25 @@ Proof. exact cos_pi_exact_sound. Qed.
 Print Assumptions C15_cos_exact_flag_sound.
 
 (* ---------------------------------------------------------------- (6) *)
-(* cos of a rational: the flag is sound except at x = -pi_model/2, where
-   x + pi_model/2 = 0 makes sin return an exact 0: REFUTED + except-known *)
-Theorem C15_cos_rational_exact_flag_refuted : forall Fo,
-  exists a v, real_cos Fo (RSimple a) = Ok (mkEx v true) /\ real_val v <> cos (Q2R a).
-Proof. exact cos_simple_exact_refuted_lemma. Qed.
-Print Assumptions C15_cos_rational_exact_flag_refuted.
-
-Theorem C15_cos_rational_exact_flag_except_known : forall Fo a v,
-  ~ (a + (1 # 2) * pi_model == 0)%Q ->
+(* cos of a rational: the flag is sound (exact only at x = 0), without
+   exception since fix commit bd3b9a9 *)
+Theorem C15_cos_rational_exact_flag_sound : forall Fo a v,
   real_cos Fo (RSimple a) = Ok (mkEx v true) -> real_val v = cos (Q2R a).
-Proof. exact cos_simple_exact_except_known. Qed.
-Print Assumptions C15_cos_rational_exact_flag_except_known.
+Proof. exact cos_simple_exact_sound. Qed.
+Print Assumptions C15_cos_rational_exact_flag_sound.
+
+(* before it: at x = -pi_model/2 the sum x + pi_model/2 = 0 made sin return an
+   exact 0 (REFUTED) -- sound outside that single rational *)
+Theorem C15_cos_rational_exact_flag_old_refuted : forall Fo,
+  exists a v, real_cos_old Fo (RSimple a) = Ok (mkEx v true) /\ real_val v <> cos (Q2R a).
+Proof. exact cos_old_simple_exact_refuted_lemma. Qed.
+Print Assumptions C15_cos_rational_exact_flag_old_refuted.
+
+Theorem C15_cos_rational_exact_flag_old_except_known : forall Fo a v,
+  ~ (a + (1 # 2) * pi_model == 0)%Q ->
+  real_cos_old Fo (RSimple a) = Ok (mkEx v true) -> real_val v = cos (Q2R a).
+Proof. exact cos_old_simple_exact_except_known. Qed.
+Print Assumptions C15_cos_rational_exact_flag_old_except_known.
 
 (* ---------------------------------------------------------------- (7) *)
 (* flags of the BigRat functions: the only results not marked approximate are
@@ -183,17 +203,23 @@ Proof. exact real_one_pow. Qed.
 Print Assumptions C15_one_pow.
 
 (* --------------------------------------------------------------- (13) *)
-(* x^0 = 1 exact and unmarked for every non-zero rational x; REFUTED for a
-   Pi-pattern base (pi^0 is marked approximate) *)
-Theorem C15_pow_zero_except_known : forall x, (Qnum x <> 0)%Z ->
-  exists v, real_pow (RSimple x) (RSimple 0) = Ok (mkEx (RSimple v) true) /\ (v == 1)%Q.
+(* x^0 = 1, exact and unmarked, for every non-zero x of either pattern
+   (fix commit d3c0150; 0^0 stays an error) *)
+Theorem C15_pow_zero : forall x, real_is_zero x = false ->
+  real_pow x (RSimple 0) = Ok (mkEx (RSimple 1%Q) true).
 Proof. exact real_pow_zero. Qed.
-Print Assumptions C15_pow_zero_except_known.
+Print Assumptions C15_pow_zero.
 
-Theorem C15_pow_zero_refuted :
-  exists x, real_pow x (RSimple 0) = Ok (mkEx (RSimple (1 # 1)%Q) false).
-Proof. exists (RPi 1). exact real_pow_zero_pi_marked. Qed.
-Print Assumptions C15_pow_zero_refuted.
+(* before it: exact for a rational base, marked approximate for a Pi pattern *)
+Theorem C15_pow_zero_old_except_known : forall x, (Qnum x <> 0)%Z ->
+  exists v, real_pow_old (RSimple x) (RSimple 0) = Ok (mkEx (RSimple v) true) /\ (v == 1)%Q.
+Proof. exact real_pow_old_zero. Qed.
+Print Assumptions C15_pow_zero_old_except_known.
+
+Theorem C15_pow_zero_old_refuted :
+  exists x, real_pow_old x (RSimple 0) = Ok (mkEx (RSimple (1 # 1)%Q) false).
+Proof. exists (RPi 1). exact real_pow_old_zero_pi_marked. Qed.
+Print Assumptions C15_pow_zero_old_refuted.
 
 (* 2^pi is in the domain, and an error *)
 Theorem C15_pow_irrational_exponent_refuted :
@@ -224,38 +250,79 @@ Proof. exact iter_root_n_bracket. Qed.
 Print Assumptions C15_root_bisection_bracket.
 
 (* --------------------------------------------------------------- (14) *)
-(* BigRat::from_f64 on a finite value of magnitude below 2^64: absolute error
-   at most 2^-64 *)
-Theorem C15_from_f64_error : forall s m e,
-  fl_saturates (FFin s m e) = false ->
-  (Qabs (from_f64 (FFin s m e) - fl_valQ (FFin s m e)) <= 1 # (Z.to_pos (2 ^ 64)))%Q.
-Proof. exact from_f64_error_lemma. Qed.
-Print Assumptions C15_from_f64_error.
+(* BigRat::from_f64 (since fix commit d752faf), total behaviour:
+   every finite f64 converts to a value within 2^-64 of it ... *)
+Theorem C15_from_f64 : forall s m e,
+  exists v, from_f64 (FFin s m e) = Ok v /\
+            (Qabs (v - fl_valQ (FFin s m e)) <= 1 # (Z.to_pos (2 ^ 64)))%Q.
+Proof. exact from_f64_total_lemma. Qed.
+Print Assumptions C15_from_f64.
+
+(* ... exactly from magnitude 2^64 on ... *)
+Theorem C15_from_f64_exact_above : forall s m e,
+  fl_saturates (FFin s m e) = true ->
+  exists v, from_f64 (FFin s m e) = Ok v /\ (v == fl_valQ (FFin s m e))%Q.
+Proof. exact from_f64_exact_above_lemma. Qed.
+Print Assumptions C15_from_f64_exact_above.
+
+(* ... and infinities and NaN are an error, never a number *)
+Theorem C15_from_f64_nonfinite :
+  from_f64 FNaN = Err EOther /\ forall s, from_f64 (FInf s) = Err EOther.
+Proof. exact from_f64_nonfinite_lemma. Qed.
+Print Assumptions C15_from_f64_nonfinite.
+
+(* consequences for the bridge: a finite libm answer of any size is converted
+   faithfully, a non-finite one is the error ValueTooLarge *)
+Theorem C15_bridge_faithful : forall F q s m e,
+  fl_of_bits (F (fl_bits (into_f64 q))) = FFin s m e ->
+  exists v, bridge F q = Ok v /\ Rabs (Q2R v - fl_R (FFin s m e)) <= / 2 ^ 64.
+Proof. exact bridge_faithful_lemma. Qed.
+Print Assumptions C15_bridge_faithful.
+
+Theorem C15_bridge_nonfinite_is_error : forall F q,
+  (fl_of_bits (F (fl_bits (into_f64 q))) = FNaN \/
+   exists s, fl_of_bits (F (fl_bits (into_f64 q))) = FInf s) ->
+  bridge F q = Err EOther.
+Proof. exact bridge_nonfinite_lemma. Qed.
+Print Assumptions C15_bridge_nonfinite_is_error.
 
 (* --------------------------------------------------------------- (15) *)
-(* ... and from 2^64 on (and for both infinities) the result is exactly
-   +-2^64, NaN is 0: the saturating cast.  This is the statement
-   from_f64_saturates_refuted of the design: a value is returned where the
-   property demands the value or an error. *)
-Theorem C15_from_f64_saturates : forall s m e,
+(* the function before the commit (saturating `as u128` cast), as
+   documentation: below 2^64 the same 2^-64 bound; from 2^64 on and for both
+   infinities exactly +-2^64; NaN was 0 *)
+Theorem C15_from_f64_old_error : forall s m e,
+  fl_saturates (FFin s m e) = false ->
+  (Qabs (from_f64_old (FFin s m e) - fl_valQ (FFin s m e)) <= 1 # (Z.to_pos (2 ^ 64)))%Q.
+Proof. exact from_f64_old_error_lemma. Qed.
+Print Assumptions C15_from_f64_old_error.
+
+Theorem C15_from_f64_old_saturates : forall s m e,
   fl_saturates (FFin s m e) = true ->
-  (from_f64 (FFin s m e) == inject_Z (sgnZ s (2 ^ 64)%N))%Q.
-Proof. exact from_f64_saturation_lemma. Qed.
-Print Assumptions C15_from_f64_saturates.
+  (from_f64_old (FFin s m e) == inject_Z (sgnZ s (2 ^ 64)%N))%Q.
+Proof. exact from_f64_old_saturation_lemma. Qed.
+Print Assumptions C15_from_f64_old_saturates.
 
-Theorem C15_from_f64_inf : forall s, (from_f64 (FInf s) == inject_Z (sgnZ s (2 ^ 64)%N))%Q.
-Proof. exact from_f64_inf. Qed.
-Print Assumptions C15_from_f64_inf.
+Theorem C15_from_f64_old_inf : forall s, (from_f64_old (FInf s) == inject_Z (sgnZ s (2 ^ 64)%N))%Q.
+Proof. exact from_f64_old_inf. Qed.
+Print Assumptions C15_from_f64_old_inf.
 
-Theorem C15_from_f64_nan : (from_f64 FNaN == 0)%Q.
-Proof. exact from_f64_nan. Qed.
-Print Assumptions C15_from_f64_nan.
+Theorem C15_from_f64_old_nan : (from_f64_old FNaN == 0)%Q.
+Proof. exact from_f64_old_nan. Qed.
+Print Assumptions C15_from_f64_old_nan.
 
 (* --------------------------------------------------------------- (16) *)
-(* into_f64 of (10^400+1)/10^400 is inf/inf = NaN *)
+(* into_f64 is unchanged: of (10^400+1)/10^400 it is inf/inf = NaN; what is
+   left of the class into_f64_overflow is that such an argument is now
+   rejected (ValueTooLarge) instead of being answered with 0 *)
 Theorem C15_into_f64_nan_witness : into_f64 q_big_near_one = FNaN.
 Proof. exact into_f64_big_near_one_is_nan. Qed.
 Print Assumptions C15_into_f64_nan_witness.
+
+Theorem C15_nan_is_error : forall Fo,
+  fl_of_bits (Fo Fatan (fl_bits FNaN)) = FNaN ->
+  real_fn Fo Fatan (RSimple q_big_near_one) = Err EOther.
+Proof. exact nan_is_error_lemma. Qed.
+Print Assumptions C15_nan_is_error.
 
 (* --------------------------------------------------------- (17)-(19) *)
 (* The headline bound, C15_accuracy:
@@ -267,8 +334,8 @@ Print Assumptions C15_into_f64_nan_witness.
 
    cannot hold for an arbitrary libm and is refuted below even for a perfect
    one.  What is proved is the conditional form, for sin, cos and atan, from
-   (a) a libm hypothesis at the single consulted point: the answer is finite,
-       below 2^64 and within 2^-52 of the real function (1 ulp for |y| <= 2),
+   (a) a libm hypothesis at the single consulted point: the answer is finite
+       and within 2^-52 of the real function (1 ulp for |y| <= 2),
    (b) a conversion hypothesis: into_f64 q within 2^-50 relative of q
        (checked bit-exactly against the implementation on every sampled
        input at L1; not proved for all q).
@@ -342,51 +409,48 @@ Print Assumptions C15_accuracy_small_operands_atan.
 Theorem C15_bridge_budget : forall (F : oracle) (fR : R -> R) (L eps_libm delta : R),
   0 <= L -> (forall a b, Rabs (fR a - fR b) <= L * Rabs (a - b)) ->
   forall q, into_ok delta q -> libm_ok F fR eps_libm (into_f64 q) ->
-  Rabs (Q2R (bridge F q) - fR (Q2R q)) <= / 2 ^ 64 + eps_libm + L * delta * Rabs (Q2R q).
+  exists v, bridge F q = Ok v /\
+    Rabs (Q2R v - fR (Q2R q)) <= / 2 ^ 64 + eps_libm + L * delta * Rabs (Q2R q).
 Proof. exact bridge_budget. Qed.
 Print Assumptions C15_bridge_budget.
 
 (* --------------------------------------------------------- (21)-(24) *)
-(* REFUTED.  (21) acos (1 - 10^-17): the argument is rounded to 1.0, every
+(* REFUTED (still: class ill_conditioned_argument is open).  (21) acos (1 - 10^-17): the argument is rounded to 1.0, every
    libm with acos(1.0) = +0.0 yields 0, the true value is 4.47e-9 > 1e-9. *)
 Theorem C15_accuracy_refuted : forall Fo,
   Fo Facos bits_one = 0%N -> ~ C15_accuracy_statement Fo.
 Proof. exact accuracy_refuted_lemma. Qed.
 Print Assumptions C15_accuracy_refuted.
 
-(* (22) sinh 46: whatever finite value >= 2^64 or +inf libm answers (the true
-   value is 4.7e19), the result is exactly 2^64 and outside the budget *)
-Theorem C15_saturation_refuted : forall Fo y,
-  fl_of_bits (Fo Fsinh (fl_bits (into_f64 46))) = y ->
+(* (22), (23): documentation of the repaired bridge.  With from_f64_old,
+   sinh 46 was exactly 2^64 whatever value >= 2^64 (or +inf) libm answered
+   (true value 4.7e19), and atan((10^400+1)/10^400) was 0 (true value pi/4). *)
+Theorem C15_saturation_old_refuted : forall y,
   (y = FInf false \/ exists m e, y = FFin false m e /\ fl_saturates y = true) ->
-  exists v, real_fn Fo Fsinh (RSimple 46) = Ok (mkEx (RSimple v) false) /\
-            Q2R v = 2 ^ 64 /\ ~ within_budget (Q2R v) (true_fn Fsinh (Q2R 46)).
-Proof. exact saturation_refuted_lemma. Qed.
-Print Assumptions C15_saturation_refuted.
+  Q2R (from_f64_old y) = 2 ^ 64 /\ ~ within_budget (Q2R (from_f64_old y)) (sinh 46).
+Proof. exact saturation_old_refuted_lemma. Qed.
+Print Assumptions C15_saturation_old_refuted.
 
-(* (23) atan ((10^400+1)/10^400) = 0 for every libm that maps NaN to NaN *)
-Theorem C15_nan_refuted : forall Fo,
-  fl_of_bits (Fo Fatan (fl_bits FNaN)) = FNaN ->
-  exists v, real_fn Fo Fatan (RSimple q_big_near_one) = Ok (mkEx (RSimple v) false) /\
-            Q2R v = 0 /\ ~ within_budget (Q2R v) (true_fn Fatan (Q2R q_big_near_one)).
-Proof. exact nan_refuted_lemma. Qed.
-Print Assumptions C15_nan_refuted.
+Theorem C15_nan_old_refuted :
+  Q2R (from_f64_old FNaN) = 0 /\ ~ within_budget 0 (atan (Q2R q_big_near_one)).
+Proof. exact nan_old_refuted_lemma. Qed.
+Print Assumptions C15_nan_old_refuted.
 
 (* ------------------------------------------------------------------ *)
 (* non-vacuity of the hypotheses *)
 
 Example C15_sin_special_inhabited :
-  (Z.abs 7 < 2 ^ 64)%Z /\ ((14 # 12) == 7 # 6)%Q /\ good_residue (Z.abs_N 7) = true.
-Proof. repeat split; reflexivity. Qed.
+  ((14 # 12) == 7 # 6)%Q /\ good_residue (Z.abs_N 7) = true.
+Proof. split; reflexivity. Qed.
 
-Example C15_sin_special_inhabited_big :
-  (Z.abs (6 * 3074457345618258602) < 2 ^ 64)%Z /\
-  ((3074457345618258602 # 1) == 6 * 3074457345618258602 # 6)%Q /\
-  good_residue (Z.abs_N (6 * 3074457345618258602)) = true.
-Proof. repeat split; reflexivity. Qed.
+Example C15_sin_special_inhabited_big :       (* 2^70 pi, beyond the old cut-off *)
+  ((2 ^ 70 # 1) == 6 * 2 ^ 70 # 6)%Q /\ good_residue (Z.abs_N (6 * 2 ^ 70)) = true.
+Proof. split; reflexivity. Qed.
 
-Example C15_cos_special_inhabited :
-  (Z.abs (-2 + 3) < 2 ^ 64)%Z /\ good_residue (Z.abs_N (-2 + 3)) = true.
+Example C15_cos_special_inhabited : good_residue (Z.abs_N (-2 + 3)) = true.
+Proof. reflexivity. Qed.
+
+Example C15_pow_zero_inhabited : real_is_zero (RPi 1) = false /\ real_is_zero (RSimple (2 # 7)) = false.
 Proof. split; reflexivity. Qed.
 
 Example C15_root_bisection_inhabited :      (* sqrt 2 from the floor 1 *)
@@ -399,11 +463,11 @@ Proof. split; reflexivity. Qed.
 Example C15_round_pos_inhabited : (-1022 <= sel_e 1 3 + 0 <= 1022)%Z.     (* 1/3 *)
 Proof. split; discriminate. Qed.
 
-Example C15_from_f64_error_inhabited :
+Example C15_from_f64_old_error_inhabited :
   fl_saturates (FFin true 6004799503160661 (-54)) = false.      (* -1/3 *)
 Proof. reflexivity. Qed.
 
-Example C15_from_f64_saturates_inhabited :
+Example C15_from_f64_exact_above_inhabited :
   fl_saturates (FFin false 4503599627370496 13) = true.          (* 2^65 *)
 Proof. reflexivity. Qed.
 
